@@ -123,6 +123,12 @@ def tuple_key_cases(run, rng, n):
                 ng = rng.randint(1, 3)
                 by = np.array([rng.choice(list(range(ng + 1)) + [np.nan]) for _ in range(m)], dtype=float)
                 ex = np.arange(ng, dtype=float)
+                form = rng.choice(["array", "array", "index-shuffled", "list-shuffled"])
+                if form != "array":
+                    # the same request in another container / order: with sort=True (default) the result is ascending all the same
+                    perm = ex.tolist()
+                    rng.shuffle(perm)
+                    ex = pd.Index(perm) if form == "index-shuffled" else perm
                 bys.append(by)
                 expected.append(ex)
                 isbin.append(False)
@@ -153,6 +159,10 @@ def tuple_key_cases(run, rng, n):
                 continue
             run.count(f"tuple|{k}|{mode}|{func}|{vals.tolist()}|{[b.tolist() for b in bys]}", k > 1)
             ok = res.shape == tuple(shapes) and np.allclose(res, want, equal_nan=True)
+            # the labels returned for a categorical grouper are the requested ones in ascending order
+            for gi, ex in enumerate(expected):
+                if not isinstance(ex, pd.IntervalIndex):
+                    ok = ok and np.array_equal(np.asarray(groups[gi], dtype=float), np.sort(np.asarray(ex, dtype=float)))
             if func == "count":
                 ok = res.shape == tuple(shapes) and np.allclose(np.nan_to_num(res), np.nan_to_num(want))
             if not ok:
